@@ -70,8 +70,12 @@ def main():
     sh(['git', 'checkout', '--', 'evidence'], cwd=ROOT)
     # generated Lean files were regenerated from the scratch trees: regenerate from /repo
     sh(['/venv/bin/python', '-c', 'import sys; sys.path.insert(0, "harness"); import common; common.ensure_built()'], cwd=ROOT)
-    with open(os.path.join(SEEDED, 'last_run.json'), 'w') as f:
-        json.dump(results, f, indent=1, sort_keys=True)
+    # cumulative record (one entry per seeded change, overwritten by its latest run)
+    path = os.path.join(SEEDED, 'results.json')
+    allres = json.load(open(path)) if os.path.exists(path) else {}
+    allres.update(results)
+    with open(path, 'w') as f:
+        json.dump(allres, f, indent=1, sort_keys=True)
     missed = [n for n, r in results.items() if not r.get('caught_by')]
     print('caught %d / %d; missed: %s' % (len(results) - len(missed), len(results), missed))
 
